@@ -1779,7 +1779,7 @@ impl<'a> Driver<'a> {
                 .results(call_no)
                 .iter()
                 .filter_map(|r| r.split_once(":nodes:").map(|(_, l)| l.to_string()))
-                .flat_map(|l| l.split(',').filter(|x| !x.is_empty()).map(|x| x.split_once('@').map(|(i, a)| (i.to_string(), a.to_string())).unwrap_or_default()).collect::<Vec<_>>())
+                .flat_map(|l| l.split(',').filter(|x| !x.is_empty()).filter_map(|x| x.split_once('@').map(|(i, a)| (i.to_string(), a.to_string()))).filter(|(i, _)| i.len() == 40).collect::<Vec<_>>())
                 .collect();
             for (rank, n) in listed_only.iter().take(20).enumerate() {
                 let me = (hex(n.id().as_bytes()), addr_s(&n.address()));
@@ -3938,9 +3938,10 @@ pub fn run(out: &mut Out, seed: u64, thorough: bool, replay: Option<&str>) {
         }
         let boot = vec![net.peers[0].addr];
         let mut d = Driver::new(out, rng.next(), net);
+        // (from the very first request on: the node joins through shadowed answers too)
+        d.shadow = shadow;
         d.begin("c", &boot, None, rng.next() % 1_000_000 + 1, t0);
         d.run_for(2 * SEC, 10 * MS);
-        d.shadow = shadow;
         let t = Id::from_bytes(d.rng.id20()).expect("id");
         d.lookup_and_check_closure(format!("find_node t={}", hex(t.as_bytes())), &t);
         let t2 = Id::from_bytes(d.rng.id20()).expect("id");
